@@ -115,9 +115,14 @@ def moasha_episode(sched_conf, schedule, rng_seed):
     np.random.seed(rng_seed)
     dim = sched_conf["dim"]
     metrics = [f"m{i}" for i in range(dim)]
+    extra = {}
+    if sched_conf.get("prio") is not None:
+        # a scalar priority (ties are frequent): the objective of one fixed dimension
+        from syne_tune.optimizer.schedulers.multiobjective.multiobjective_priority import FixedObjectivePriority
+        extra["multiobjective_priority"] = FixedObjectivePriority(dim=sched_conf["prio"])
     sched = MOASHA({"x": uniform(0, 1)}, metrics=metrics, mode=sched_conf["mode"], time_attr="epoch",
                    max_t=sched_conf["max_t"], grace_period=sched_conf["grace"], reduction_factor=sched_conf["rf"],
-                   brackets=sched_conf["brackets"])
+                   brackets=sched_conf["brackets"], **extra)
     modes = sched_conf["mode"] if isinstance(sched_conf["mode"], list) else [sched_conf["mode"]] * dim
     sign = [1 if m == "min" else -1 for m in modes]
     rf = Fraction(sched_conf["rf"]).limit_denominator(100)
@@ -171,6 +176,10 @@ def moasha_episode(sched_conf, schedule, rng_seed):
             calls.append({"f": "moasha_off", "d": d, "it": it[t]})
         elif not rung[1]:
             calls.append({"f": "moasha_first", "d": d})
+        elif sched_conf.get("prio") is not None:
+            k = sched_conf["prio"]
+            calls.append({"f": "moasha_scalar", "P": [x[k] for x in rung[1]] + [mapped[k]], "rfn": rf.numerator,
+                          "rfd": rf.denominator, "d": d, "t": t, "it": it[t]})
         else:
             calls.append({"f": "moasha", "X": rung[1] + [mapped], "rfn": rf.numerator, "rfd": rf.denominator, "d": d,
                           "t": t, "it": it[t]})
@@ -186,6 +195,9 @@ def moasha_campaign(rep, tier, seed):
         {"dim": 2, "mode": ["min", "max"], "max_t": 4, "grace": 1, "rf": 2, "brackets": 1},
         {"dim": 2, "mode": "max", "max_t": 9, "grace": 1, "rf": 3, "brackets": 2},
         {"dim": 3, "mode": ["max", "min", "min"], "max_t": 8, "grace": 2, "rf": 2, "brackets": 1},
+        # scalar priorities: many ties (two and three values per objective)
+        {"dim": 2, "mode": ["min", "max"], "max_t": 4, "grace": 1, "rf": 2, "brackets": 1, "prio": 1},
+        {"dim": 2, "mode": "min", "max_t": 9, "grace": 1, "rf": 3, "brackets": 1, "prio": 0},
     ]
     n = 40 if tier == "quick" else 400
     calls = []
@@ -200,6 +212,7 @@ def moasha_campaign(rep, tier, seed):
     if calls:
         rep.sample({"campaign": "moasha", "call": next((c for c in calls if c["f"] == "moasha"), calls[0])})
     rep.extra["moasha_rank_decisions"] = sum(1 for c in calls if c["f"] == "moasha")
+    rep.extra["moasha_scalar_rank_decisions"] = sum(1 for c in calls if c["f"] == "moasha_scalar")
 
 
 def run(rep, tier, seed):
